@@ -11,10 +11,11 @@ META = {
     "rule": "Histories of decodes in one process: A, B, A sequentially and A stepped / B complete / A finished / A "
             "again, where A and B are commands (or responses) with encrypted parameter areas of different command "
             "codes; the pre-emption point s is a symbolic integer, the encrypted-parameter bytes are symbolic; the "
-            "synthesized-type cache is emptied at the start of every path.",
+            "synthesized-type cache is emptied at the start of every path.  One long history: A, every other "
+            "encrypted parameter area of every command code in both directions (about 100 decodes), A again.",
     "bounds": {"quick": "12 ordered pairs from 4 seed-rotated command codes with a TPM2B first parameter; one pre-emption point; history length 3-4",
                "thorough": "all ordered pairs from 9 codes; commands and responses; third decode C between"},
-    "outside": "histories longer than 4 decodes, more than one pre-emption point, threads",
+    "outside": "other histories longer than 4 decodes, more than one pre-emption point, threads",
     "wall_budget_s": {"quick": 200, "thorough": 840},
 }
 
@@ -79,6 +80,30 @@ def history(cfg, s, a, b):
     return checks
 
 
+def long_history(cfg, a):
+    """A, then one decode of every other encrypted parameter area there is (commands and responses), then A again"""
+    from tpmstream.common.object import events_to_obj
+
+    _reset_cache()
+    TA = get_type(cfg["a"]["type"])
+    ev1, obj1 = _run(TA, a, None, None)
+    n = 0
+    for m in cfg["between"]:
+        try:
+            _run(get_type(m["type"]), bytes.fromhex(m["hex"]), m.get("cc"), m.get("enc"))
+            n += 1
+        except Exception:  # noqa: BLE001  (whether each of them decodes is C01's business)
+            note("between-raised")
+    assume(n >= 64)
+    ev2, obj2 = _run(TA, a, None, None)
+    note("long-history")
+    st, va = _events_equal(ev2, ev1)
+    reb = events_to_obj(ev1, command_code=None)
+    return [("same-input-same-events", st and va), ("same-input-equal-objects", obj1 == obj2),
+            ("synthesized-parameter-type-is-the-same-type", type(obj1.parameters) is type(obj2.parameters)),
+            ("events-to-object-comparable-with-both", reb == obj1 and reb == obj2)]
+
+
 def partitions(tier, seed):
     quick = tier == "quick"
     G = sp.gen()
@@ -90,6 +115,21 @@ def partitions(tier, seed):
                 enc_cmds[cc] = data
     codes = sp.rotate(sorted(enc_cmds), seed, 4 if quick else 9)
     parts = []
+    # long history: every encrypted parameter area of every code and direction between two decodes of A
+    enc_rsps = {}
+    for cc in sp.cc_list():
+        for label, enc, data in G.responses(cc, minimal=True):
+            if label == "encrypt":
+                enc_rsps[cc] = data
+    for x in codes[:1 if quick else 3]:
+        between = [{"type": sp.cmd_key(), "hex": enc_cmds[y].hex()} for y in sorted(enc_cmds) if y != x]
+        between += [{"type": sp.rsp_key(), "hex": enc_rsps[y].hex(), "cc": y, "enc": True} for y in sorted(enc_rsps)]
+        da = enc_cmds[x]
+        fa = [i for i in range(len(da) - 2) if da[i:i + 5] == b"\x00\x03\x01\x02\x03"]
+        parts.append({"id": "C12/%s-after-all-%d-encrypted-areas" % (sp.cc_name(x), len(between)), "prop": "harness.c12:long_history",
+                      "cfg": {"a": {"type": sp.cmd_key()}, "between": between},
+                      "sym": [["a", "template", da.hex(), list(range(fa[0] + 2, fa[0] + 5)) if fa else []]],
+                      "budget_s": 150, "path_timeout_s": 120})
     for x in codes:
         for y in codes:
             if x == y:
